@@ -50,6 +50,23 @@ Write(v, n, at) ==
     /\ total' = total + n
     /\ UNCHANGED <<cur, off, viewVars>>
 
+(* a write through a sink that may accept fewer bytes than offered (short writes, a   *)
+(* full fixed-capacity target, Ok(0), Interrupted).  enc = the encoding the same      *)
+(* encoder produces into a growable buffer (encLen bytes; encPrefix = its first       *)
+(* sinkLen bytes), sink = the bytes that reached the sink during the call, n = the    *)
+(* byte count the writer itself claims for the call.  The sink holds exactly a prefix *)
+(* of the encoding; Ok => all of it, in order, and n = its length; Err => nothing     *)
+(* beyond what the sink accepted is claimed, and no record is appended.               *)
+WriteThrough(v, ok, n, encLen, sinkLen, encPrefix, sink, at) ==
+    /\ at = total
+    /\ 0 <= sinkLen /\ sinkLen <= encLen
+    /\ encPrefix = sink
+    /\ ok => (sinkLen = encLen /\ n = encLen)
+    /\ ~ok => n <= sinkLen
+    /\ stream' = IF ok THEN Append(stream, [v |-> v, n |-> encLen]) ELSE stream
+    /\ total' = total + sinkLen
+    /\ UNCHANGED <<cur, off, viewVars>>
+
 (* the encoder refused (Err): nothing was appended *)
 WriteRefused == UNCHANGED <<wireVars, viewVars>>
 
